@@ -22,4 +22,8 @@ var verifHarnesses = map[string]func(){
 	"VerifC18MapOrder": VerifC18MapOrder,
 	"VerifC17Handshake": VerifC17Handshake,
 	"VerifC17LaunchBinding": VerifC17LaunchBinding,
+	"VerifC14UpdateConsumer": VerifC14UpdateConsumer,
+	"VerifC14RemoveAndGov": VerifC14RemoveAndGov,
+	"VerifC11Delete": VerifC11Delete,
+	"VerifC11Stop": VerifC11Stop,
 }
